@@ -222,7 +222,7 @@ func (e *Env) field(base Val, name string) Val {
 			key, elem, isMap := e.x.ghostKey(n, g)
 			t := sel(e.x.fieldArr(e.st, key), base.S)
 			if isMap {
-				return Val{K: KMapView, T: elem, S: t, Srt: arrSort("Int", c0(e).sortOf(elem))}
+				return Val{K: KMapView, T: elem, S: t, Srt: arrSort(c0(e).sortOf(e.x.ghostKeyType(n, g)), c0(e).sortOf(elem))}
 			}
 			return scalar(elem, t)
 		}
